@@ -14,7 +14,7 @@ import gc
 
 from hypothesis import strategies as st
 
-from traits.api import HasTraits, Int, List, Range, push_exception_handler, pop_exception_handler
+from traits.api import HasTraits, Int, List, Range, TraitError, push_exception_handler, pop_exception_handler
 
 ID = "C20"
 LEVEL = "exploration"
@@ -270,23 +270,39 @@ def run(case, ctx):
                     # forward link; then, for a new reverse link, self.name = partner.alias) raise if rejected, by design
                     fwd_new = (i, n, j, a) not in edges
                     if fwd_new and not accepts(a, M[(i, n)]):
-                        continue
-                    back_val = M[(i, n)] if fwd_new else M[(j, a)]
-                    if mutual and (j, a, i, n) not in edges and not accepts(n, back_val):
-                        continue
-                    objs[i].sync_trait(n, objs[j], a, mutual=mutual)
-                    new_edge = (i, n, j, a) not in edges
-                    edges.add((i, n, j, a))
-                    if new_edge:
-                        # the initial copy: partner.alias = self.name
-                        m_assign((j, a), M[(i, n)], set())
-                    if mutual:
-                        new_back = (j, a, i, n) not in edges
-                        edges.add((j, a, i, n))
-                        if new_back:
-                            m_assign((i, n), M[(j, a)], set())
-                    links.append([i, n, j, a, mutual])
-                    ctx.label("link:" + ("mutual" if mutual else "one-way") + ("-alias" if n != a else ""))
+                        # the partner rejects the initial copy: sync_trait raises - and must then have linked nothing
+                        try:
+                            objs[i].sync_trait(n, objs[j], a, mutual=mutual)
+                            ctx.fail("sync/initial-copy-accepted", "%s: the partner cannot hold %r but sync_trait did not raise" % (what, M[(i, n)]))
+                        except TraitError:
+                            pass
+                        interesting = True
+                        ctx.label("sync-refused")
+                        # no edge in the model.  Probe at once: a value both sides could hold is assigned to the source -
+                        # the state comparison at the end of this step shows whether a link was left behind
+                        probe_val = 3 if n in SCALARS else [1]
+                        setattr(objs[i], n, list(probe_val) if isinstance(probe_val, list) else probe_val)
+                        m_assign((i, n), probe_val, set())
+                        refused = True
+                    else:
+                        refused = False
+                    if not refused:
+                        back_val = M[(i, n)] if fwd_new else M[(j, a)]
+                        if mutual and (j, a, i, n) not in edges and not accepts(n, back_val):
+                            continue
+                        objs[i].sync_trait(n, objs[j], a, mutual=mutual)
+                        new_edge = (i, n, j, a) not in edges
+                        edges.add((i, n, j, a))
+                        if new_edge:
+                            # the initial copy: partner.alias = self.name
+                            m_assign((j, a), M[(i, n)], set())
+                        if mutual:
+                            new_back = (j, a, i, n) not in edges
+                            edges.add((j, a, i, n))
+                            if new_back:
+                                m_assign((i, n), M[(j, a)], set())
+                        links.append([i, n, j, a, mutual])
+                        ctx.label("link:" + ("mutual" if mutual else "one-way") + ("-alias" if n != a else ""))
                 elif k == "unsync":
                     if not links:
                         continue
